@@ -240,6 +240,12 @@ def _id_text_complete(eng, init, flow, arg, at):
                 return True, f"regular expression {pat!r}: group {gi} takes every digit"
             return False, f"regular expression {pat!r}: group {gi} takes at most {hi} digit(s): ids with more digits are truncated (e.g. [$12] is read as id {'1' * int(hi)})"
         raise AnalysisError(f"descriptor id is parsed with regular expression {pat!r}, whose group {gi} is outside what the analysis decides")
+    # a single character can never be a complete id text
+    if isinstance(t, ast.Subscript) and not isinstance(t.slice, ast.Slice):
+        core_t = t
+        return False, f"id text = {txt[:90]}: one character of the descriptor text — an id of several digits is truncated (e.g. [$12] is read as id 1)"
+    if isinstance(t, ast.Call) and isinstance(t.func, ast.Attribute) and t.func.attr == "strip" and isinstance(t.func.value, ast.Subscript) and not isinstance(t.func.value.slice, ast.Slice):
+        return False, f"id text = {txt[:90]}: one character of the descriptor text — an id of several digits is truncated"
     raise AnalysisError(f"the text of the descriptor id ({txt[:80]}) is obtained in a way the analysis does not recognise")
 
 
@@ -284,6 +290,9 @@ def bond_order_table(eng, res, fi):
 
 
 def check(eng, res):
+    from . import c10 as _c10
+
+    _c10.copy_plain(eng, res)
     prog = eng.prog
     res.doc("R-COMPAT-UNIQUE", "exactly one is_compatible; no subclass of BondDescriptor; filter appends i under `bond is None or bond.is_compatible(other_i)`")
     res.doc("R-COMPAT-READSET", "is_compatible reads only descriptor, descriptor_id, bond_type of its two operands; no call, no global")
@@ -339,6 +348,24 @@ def check(eng, res):
             not bad,
             f"{len(bad)} cell(s) differ, e.g. ids {bad[0][0][0]!r}/{bad[0][0][1]!r} orders {bad[0][0][2]}/{bad[0][0][3]} -> {bad[0][1]!r}" if bad else "",
         )
+    # the same object on both sides (a descriptor stands for every copy of its unit): same verdict as for an equal copy
+    if table:
+        me_, other_ = fi.params[0], fi.params[1]
+        bad_same = []
+        for sd in SYMBOLS:
+            for si, so in itertools.product(IDS, ORDERS):
+                d = {"descriptor": sd, "descriptor_id": si, "bond_type": "BondType." + so}
+                try:
+                    _run(fi.node.body, {me_: d, other_: d})
+                    r = None
+                except _Ret as ret:
+                    r = ret.v
+                except AnalysisError:
+                    r = "?"
+                if bool(r) != (sd == "$") or r == "?":
+                    bad_same.append((sd, si, so, r))
+        res.ob("R-COMPAT-TABLE", fi, "same-object", "a descriptor compared with itself (one object on both sides) gets the verdict of an equal copy: compatible iff its symbol is $", fi.node,
+               not bad_same, f"{len(bad_same)} descriptor(s) differ, e.g. [{bad_same[0][0]}{bad_same[0][1]}] order {bad_same[0][2]} -> {bad_same[0][3]!r}" if bad_same else "")
     if table:
         asym = [k for k in table if {c for c, _ in table[k]} != {(c[1], c[0], c[3], c[2]) for c, _ in table[(k[1], k[0])]}]
         res.ob("R-COMPAT-TABLE", fi, "symmetry", "relation symmetric on the whole universe", fi.node, not asym and not any(table.values()) or not asym, f"asymmetric symbol pairs {asym[:3]}")
